@@ -85,6 +85,15 @@ def cases(tier, seed):
 
 # ---------------------------------------------------------------------------------------------
 def _records_concat(frames):
+    from ..core import LibraryOutputError
+
+    try:
+        return _records_concat_(frames)
+    except (IndexError, ValueError, KeyError, TypeError) as exc:
+        raise LibraryOutputError(f"record-table:{type(exc).__name__}") from exc
+
+
+def _records_concat_(frames):
     """Concatenate the per-frame record buffers the way they are defined to be read: entries with
     dt > 0 are valid."""
     cols = {}
